@@ -1,13 +1,17 @@
 package main
 
 import (
-	"strconv"
+	"os"
+
+	"golang.org/x/tools/go/packages"
+
 	"fmt"
 	"go/ast"
 	"go/constant"
 	"go/token"
 	"go/types"
 	"sort"
+	"strconv"
 	"strings"
 
 	"golang.org/x/tools/go/ssa"
@@ -191,6 +195,8 @@ func propC14(w *World, r *Report) {
 			tagFns = append(tagFns, f)
 		}
 	}
+	RunMacGlyphOrder(w, r)
+	RunKeysPartition(w, r)
 	RunIterFresh(w, r, tagFns)
 	RunIterFreshControl(r)
 	RunCacheInputs(w, r, w.LibFuncs())
@@ -779,4 +785,192 @@ func RunEmitAll(w *World, r *Report) {
 		}
 	}
 	r.Floor("emitall", 2)
+}
+
+// RunMacGlyphOrder: post format 1 (and the indices below 258 of format 2)
+// name glyphs by their position in the standard Macintosh glyph order, a
+// fixed list of 258 names.  The library's copy (the string slice the post
+// reader hands out for format 1) is compared entry by entry with an
+// independent transcription of the same list that is part of the build:
+// golang.org/x/image/font/sfnt (builtInPostNamesData / builtInPostNamesOffsets).
+// "An independent reader sees the same names" fails exactly where the two
+// lists differ.  When that package is not part of the load the rule has
+// nothing to compare with and says so in a note (no obligation).
+func RunMacGlyphOrder(w *World, r *Report) {
+	r.Rule("macglyphorder: the 258-entry standard Macintosh glyph name list of package post equals, entry by entry, the independent transcription in golang.org/x/image/font/sfnt (a dependency of the module)")
+	xp := w.All["golang.org/x/image/font/sfnt"]
+	pp := w.All[modPath+"/post"]
+	if pp == nil {
+		r.Fatal("macglyphorder: package post not loaded")
+		return
+	}
+	if xp == nil {
+		// a test-only dependency of the module: load it on its own (syntax and types, nothing is built or run)
+		env := append(os.Environ(), "GOFLAGS=-mod=mod", "GOPROXY=off", "GOSUMDB=off", "GOTOOLCHAIN=local", "GOWORK=off")
+		cfg := &packages.Config{Mode: packages.NeedName | packages.NeedFiles | packages.NeedSyntax | packages.NeedTypes | packages.NeedTypesInfo | packages.NeedImports | packages.NeedDeps, Dir: w.Dir, Env: env}
+		if pk, err := packages.Load(cfg, "golang.org/x/image/font/sfnt"); err == nil && len(pk) == 1 && len(pk[0].Errors) == 0 {
+			xp = pk[0]
+		}
+	}
+	if xp == nil {
+		r.Note("macglyphorder: golang.org/x/image/font/sfnt cannot be loaded; no independent list to compare with")
+		return
+	}
+	// the independent list
+	var data string
+	var offs []int64
+	for _, f := range xp.Syntax {
+		for _, d := range f.Decls {
+			gd, ok := d.(*ast.GenDecl)
+			if !ok {
+				continue
+			}
+			for _, sp := range gd.Specs {
+				vs, ok := sp.(*ast.ValueSpec)
+				if !ok || len(vs.Names) != 1 || len(vs.Values) != 1 {
+					continue
+				}
+				switch vs.Names[0].Name {
+				case "builtInPostNamesData":
+					if tv, ok := xp.TypesInfo.Types[vs.Values[0]]; ok && tv.Value != nil && tv.Value.Kind() == constant.String {
+						data = constant.StringVal(tv.Value)
+					}
+				case "builtInPostNamesOffsets":
+					if cl, ok := vs.Values[0].(*ast.CompositeLit); ok {
+						for _, e := range cl.Elts {
+							if tv, ok := xp.TypesInfo.Types[e]; ok && tv.Value != nil {
+								if v, exact := constant.Int64Val(constant.ToInt(tv.Value)); exact {
+									offs = append(offs, v)
+								}
+							}
+						}
+					}
+				}
+			}
+		}
+	}
+	if data == "" || len(offs) < 2 {
+		r.Note("macglyphorder: the tables of golang.org/x/image/font/sfnt were not found in the expected form; nothing compared")
+		return
+	}
+	var ref []string
+	for i := 0; i+1 < len(offs); i++ {
+		if offs[i] < 0 || offs[i+1] > int64(len(data)) || offs[i] > offs[i+1] {
+			r.Note("macglyphorder: inconsistent offsets in the reference table; nothing compared")
+			return
+		}
+		ref = append(ref, data[offs[i]:offs[i+1]])
+	}
+	// the library's list: the []string literal of 258 constants in package post
+	var mine []string
+	var pos token.Pos
+	for _, f := range pp.Syntax {
+		ast.Inspect(f, func(n ast.Node) bool {
+			cl, ok := n.(*ast.CompositeLit)
+			if !ok || len(cl.Elts) != len(ref) || mine != nil {
+				return true
+			}
+			var names []string
+			for _, e := range cl.Elts {
+				tv, ok := pp.TypesInfo.Types[e]
+				if !ok || tv.Value == nil || tv.Value.Kind() != constant.String {
+					return true
+				}
+				names = append(names, constant.StringVal(tv.Value))
+			}
+			mine, pos = names, cl.Pos()
+			return true
+		})
+	}
+	key := r.MkKey("macglyphorder", "post", "standard Macintosh glyph order")
+	if mine == nil {
+		r.Fail("macglyphorder", key, "-", fmt.Sprintf("package post has no string list of %d entries: the standard Macintosh glyph order is gone or has a different length", len(ref)), nil)
+		return
+	}
+	for i := range ref {
+		if ref[i] != mine[i] {
+			r.Fail("macglyphorder", key, w.Pos(pos), fmt.Sprintf("entry %d of the standard Macintosh glyph order is %q here but %q in golang.org/x/image/font/sfnt: a glyph with that name is written with an index that every other reader resolves to a different name", i, mine[i], ref[i]), nil)
+			return
+		}
+	}
+	r.OK("macglyphorder", key, w.Pos(pos), fmt.Sprintf("%d entries agree with the independent list", len(ref)))
+}
+
+// RunKeysPartition: (*name.Table).keys lists the name ids a table holds: a
+// counted loop covers the ids with a field of their own (0..maxID, through
+// get), a loop over the Extra map adds the others behind a threshold test.
+// The two ranges must meet: the first id the Extra loop accepts is at most one
+// more than the last id of the counted loop.  A larger threshold opens a gap
+// (ids that Decode stores in Extra but Encode never writes).
+func RunKeysPartition(w *World, r *Report) {
+	r.Rule("keyspartition: in (*name.Table).keys the counted loop over the fixed name ids and the threshold test of the loop over the Extra map leave no gap: the smallest id accepted from Extra is at most (last fixed id + 1)")
+	fn := w.Func("(*name.Table).keys")
+	key := r.MkKey("keyspartition", "(*name.Table).keys", "fixed ids and Extra ids")
+	if fn == nil {
+		r.Fatal("keyspartition: (*name.Table).keys does not resolve")
+		return
+	}
+	lastFixed, firstExtra := int64(-1), int64(-1)
+	var posExtra token.Pos
+	for _, l := range naturalLoops(fn) {
+		ifi, ok := l.head.Instrs[len(l.head.Instrs)-1].(*ssa.If)
+		if ok {
+			if cmp, ok := ifi.Cond.(*ssa.BinOp); ok {
+				if _, isPhi := cmp.X.(*ssa.Phi); isPhi {
+					if c, isC := bconstInt(cmp.Y); isC {
+						switch cmp.Op {
+						case token.LEQ:
+							lastFixed = c
+						case token.LSS:
+							lastFixed = c - 1
+						}
+					}
+				}
+			}
+		}
+		// threshold tests on the key of a map range inside this loop
+		for b := range l.body {
+			ifi, ok := b.Instrs[len(b.Instrs)-1].(*ssa.If)
+			if !ok {
+				continue
+			}
+			for v := range backSlice(ifi.Cond) {
+				cmp, ok := v.(*ssa.BinOp)
+				if !ok {
+					continue
+				}
+				c, isC := bconstInt(cmp.Y)
+				if !isC {
+					continue
+				}
+				fromMapKey := false
+				for u := range backSlice(cmp.X) {
+					if ex, ok := u.(*ssa.Extract); ok {
+						if _, isNext := ex.Tuple.(*ssa.Next); isNext && ex.Index == 1 {
+							fromMapKey = true
+						}
+					}
+				}
+				if !fromMapKey {
+					continue
+				}
+				switch cmp.Op {
+				case token.GTR:
+					firstExtra, posExtra = c+1, cmp.Pos()
+				case token.GEQ:
+					firstExtra, posExtra = c, cmp.Pos()
+				}
+			}
+		}
+	}
+	switch {
+	case lastFixed < 0:
+		r.Fail("keyspartition", key, w.Pos(fn.Pos()), "no counted loop over the fixed name ids found in keys", nil)
+	case firstExtra < 0:
+		r.OK("keyspartition", key, w.Pos(fn.Pos()), fmt.Sprintf("fixed ids 0..%d; every key of Extra is listed", lastFixed))
+	case firstExtra > lastFixed+1:
+		r.Fail("keyspartition", key, w.Pos(posExtra), fmt.Sprintf("the counted loop lists the ids 0..%d and the Extra loop only ids from %d on: the ids %d..%d, which set() stores in Extra, are never written by Encode", lastFixed, firstExtra, lastFixed+1, firstExtra-1), nil)
+	default:
+		r.OK("keyspartition", key, w.Pos(posExtra), fmt.Sprintf("fixed ids 0..%d, Extra ids from %d", lastFixed, firstExtra))
+	}
 }
